@@ -148,6 +148,7 @@ type Conn struct {
 	buf    bytes.Buffer
 	rdErr  error
 	closed bool
+	paused bool // the reader goroutine has been stopped (SendAndVanish)
 }
 
 // Spawn starts the goroutine that runs a server-side session.  The scheduler build replaces it
@@ -169,6 +170,11 @@ func newConn(serve func(net.Conn)) *Conn {
 			n, err := cc.Read(b)
 			k.mu.Lock()
 			k.buf.Write(b[:n])
+			if err != nil && k.paused {
+				// SendAndVanish stopped the reading on purpose
+				k.mu.Unlock()
+				return
+			}
 			if err != nil {
 				k.rdErr = err
 			}
@@ -217,6 +223,25 @@ func (k *Conn) Write(b []byte) error {
 		return werr
 	}
 	_, err := k.c.Write(b)
+	return err
+}
+
+// SendAndVanish writes one line and is gone before the server can answer it: the client stops
+// reading first, so the server's reply cannot be written, then sends the line (the server
+// consumes it), waits until the server is blocked writing its answer, and closes.
+func (k *Conn) SendAndVanish(line string) error {
+	k.mu.Lock()
+	k.paused = true
+	k.mu.Unlock()
+	_ = k.c.SetReadDeadline(time.Unix(1, 0)) // ends the pending Read of the reader goroutine
+	if k.Bubble {
+		BubbleWait()
+	}
+	err := k.Write([]byte(line + "\r\n"))
+	if k.Bubble {
+		BubbleWait()
+	}
+	k.Close()
 	return err
 }
 
